@@ -26,6 +26,7 @@
 # policies, either expressed or implied, of Matt Chaput.
 
 from __future__ import division
+import copy
 
 from whoosh import matching
 from whoosh.compat import text_type, u
@@ -88,8 +89,11 @@ class CompoundQuery(qcore.Query):
         return iter(self.subqueries)
 
     def apply(self, fn):
-        return self.__class__([fn(q) for q in self.subqueries],
-                              boost=self.boost)
+        # Copy this node so the attributes subclasses add (Or.minmatch and
+        # scale, DisjunctionMax.tiebreak, Sequence.slop and ordered) are kept
+        obj = copy.copy(self)
+        obj.subqueries = [fn(q) for q in self.subqueries]
+        return obj
 
     def field(self):
         if self.subqueries:
